@@ -1,6 +1,8 @@
 SPECIFICATION Spec
 CONSTANTS MaxBr = 2 MaxN = 3 CopyMode = "deep"
   BufSizes <- BufAll
+  FillBr = 3
+  FillTemplates <- FillFew
   Templates <- AllTemplates
 INVARIANT Isolated
 INVARIANT YieldedStable
@@ -8,4 +10,5 @@ INVARIANT PrefixIsolated
 INVARIANT HeldDisjoint
 INVARIANT OnlyLastSeesSource
 INVARIANT ZipNeverSeesSource
+INVARIANT SourceByLastOnly
 CHECK_DEADLOCK FALSE
